@@ -225,8 +225,8 @@ def c16(tier, seed):
     from .asyncchecks import _hist_step
 
     jobs = []
-    for i in range(3 if quick else 12):
-        jobs.append(dict(kind="pyfunc", module="harness.checks.smallchecks", func="setdelay_sim_job", id=f"c16s{i}", seed=seed * 100 + i, timeout=900))
+    for i in range(4 if quick else 12):
+        jobs.append(dict(kind="pyfunc", module="harness.checks.smallchecks", func="setdelay_sim_job", id=f"c16s{i}", seed=seed * 100 + i, handmade=(i == 0), timeout=900))
     sres = common.run_jobs(jobs)
     traces = []
     for res in sres:
@@ -260,6 +260,14 @@ def setdelay_sim_job(job):
 
     rng = random.Random(job["seed"])
     cfg = gen.gen_config(rng, n_nodes=rng.choice([2, 3]))
+    if job.get("handmade"):
+        # sender and receiver with incommensurate periods, non-blocking connection that will become a BUFFER connection with a large expected
+        # delay: receiver steps regularly start between a message's actual and its expected arrival
+        cfg = dict(nodes=[dict(name="s", nid=0, period=4, delay=0, cdist=[0], advance=False, sched="F", p=3),
+                          dict(name="r", nid=1, period=6, delay=1, cdist=[1], advance=False, sched="F", p=5)],
+                   conns=[{"out": "s", "in": "r", "name": "s", "blocking": False, "skip": False, "jitter": "L", "window": 2, "delay": 0, "cdist": [0]},
+                          {"out": "r", "in": "s", "name": "in_r", "blocking": False, "skip": True, "jitter": "L", "window": 1, "delay": 0, "cdist": [0, 1]}],
+                   sup="r")
     h = arun.AsyncHarness.__new__(arun.AsyncHarness)
     # build nodes by hand so that set_delay can be applied before the AsyncGraph is created
     nodes = gen.build_nodes(cfg)
@@ -279,6 +287,17 @@ def setdelay_sim_job(job):
             conn = [x for x in nodes[c["in"]].inputs.values() if x.output_node.name == c["out"]][0]
             conn.set_delay(delay_dist=GridDist.create(new, tag=tag), delay=cd / GRID)
             c["cdist"], c["delay"] = new, cd
+    # one non-blocking connection becomes a BUFFER connection whose expected delay (set through set_delay) exceeds every sampled delay:
+    # its messages must be held back until their EXPECTED arrival - that is where a connection's expected delay shows in simulation
+    nb = [c for c in cfg["conns"] if not c["blocking"]]
+    if nb and (job["seed"] % 2 == 0 or job.get("handmade")):
+        c = nb[0] if job.get("handmade") else nb[job["seed"] // 2 % len(nb)]
+        conn = [x for x in nodes[c["in"]].inputs.values() if x.output_node.name == c["out"]][0]
+        from rex.constants import Jitter
+        conn.jitter = Jitter.BUFFER
+        tag += 1
+        conn.set_delay(delay_dist=GridDist.create([0, 1], tag=tag), delay=3 / GRID)
+        c["jitter"], c["cdist"], c["delay"] = "B", [0, 1], 3
     if not gen.is_supported(cfg):
         return dict(traces=[])
     import rex.asynchronous as ra
@@ -410,6 +429,18 @@ def c12(tier, seed):
             nd["sched"] = "F"
         jobs.append(dict(kind="pyfunc", module="harness.checks.smallchecks", func="gen_graph_job", id=f"c12g{i}", cfg=cfg, seed=seed * 10 + i,
                          ts_max=rng.choice([32, 48, 64, 128, 256]), num_episodes=rng.choice([1, 2, 3, 4]), n_aug=2, timeout=900))
+    # graphs with one trainable connection whose distribution object currently holds a delay ABOVE its minimum: the generator (and an
+    # augmentation that adds the connection) must still use the MINIMAL delay (the runtime adds the trainable part on top)
+    for i in range(3 if quick else 16):
+        cfg = c10_e2e_cfg(seed * 1000 + 9000 + i, jitter=(i % 2 == 1), skip=(i % 3 == 2))
+        if cfg is None:
+            continue
+        tr = [c for c in cfg["conns"] if "train" in c][0]["train"]
+        tr["d0"] = tr["max"] if i % 2 == 0 else (tr["min"] + tr["max"]) // 2
+        for nd in cfg["nodes"]:
+            nd["sched"] = "F"
+        jobs.append(dict(kind="pyfunc", module="harness.checks.smallchecks", func="gen_graph_job", id=f"c12t{i}", cfg=cfg, seed=seed * 10 + 50 + i,
+                         ts_max=48, num_episodes=2, n_aug=2, timeout=900))
     results = common.run_jobs(jobs)
     items = []
     for res in results:
@@ -588,6 +619,23 @@ def algebra_job(job):
                                       out=_tables_of_record(ro)))
             except Exception as e:  # noqa
                 cases_extra.append(dict(kind="filter_with_substructure_raises", sel=list(sel), ok=False, detail=repr(e)[:300]))
+    # a message that was sent but never consumed (seq_in = -1) in the MIDDLE of a connection (legal per the Edge docstring; e.g. a lossy
+    # transport): the consumed messages after it are still relations of the graph
+    try:
+        import numpy as onp
+        g0 = graphs[0]
+        key = next(k for k, ed in sorted(g0.edges.items()) if int((onp.asarray(ed.seq_in) >= 0).sum()) >= 3)
+        ed = g0.edges[key]
+        si = onp.array(ed.seq_in)
+        live = [j for j in range(len(si)) if si[j] >= 0]
+        si[live[len(live) // 2]] = -1
+        g_lost = base.Graph(vertices=dict(g0.vertices), edges={**dict(g0.edges), key: ed.replace(seq_in=si)})
+        Gl = to_networkx_graph(g_lost, nodes=nodes)
+        nxn = [dict(name=str(n), kind=d["kind"], seq=int(d["seq"]), start=to_grid(d["ts_start"]), end=to_grid(d["ts_end"])) for n, d in Gl.nodes(data=True)]
+        nxe = [[str(u), str(v)] for u, v in Gl.edges()]
+        cases.append(dict(id=f"{job['id']}/to_nx_lost_message", op="to_nx", g=_tables_of_graph(g_lost), ends=ends, nx=dict(nodes=nxn, edges=nxe)))
+    except StopIteration:
+        pass
     for i, g in enumerate(graphs[:2]):
         G = to_networkx_graph(stacked[i], nodes=nodes)
         nxn = [dict(name=str(n), kind=d["kind"], seq=int(d["seq"]), start=to_grid(d["ts_start"]), end=to_grid(d["ts_end"])) for n, d in G.nodes(data=True)]
@@ -724,10 +772,12 @@ def solver_e2e_job(job):
 
     kind, seed = job["solver"], job["seed"]
     rng = random.Random(seed)
-    D = rng.choice([1, 2, 3]) if kind == "cem" else rng.choice([2, 3])
+    D = rng.choice([1, 2, 3, 2]) if kind == "cem" else rng.choice([2, 3])
     # per-dimension bounds (a tight interval next to a wide one: a bound applied to the wrong dimension, or the loosest one to all, shows)
     lo = onp.array([-1.0 - rng.random() if j % 2 == 0 else -0.1 - 0.1 * rng.random() for j in range(D)], dtype=onp.float32)
     hi = onp.array([1.0 + rng.random() if j % 2 == 0 else 0.1 + 0.1 * rng.random() for j in range(D)], dtype=onp.float32)
+    if kind == "cem" and D >= 2 and seed % 2 == 0:
+        lo[-1] = hi[-1] = onp.float32(0.25)   # a pinned parameter (u_min == u_max): every candidate carries exactly that value
     u_min = {"p": jnp.asarray(lo)}
     u_max = {"p": jnp.asarray(hi)}
     nan_at = rng.choice([0.2, 0.5, -0.1])
@@ -1009,6 +1059,36 @@ def rlw_replay_job(job):
                                    got=(int(hs_[idx[0]]) if idx else None))
                         break
             results.append(dict(hist=hist, variant=variant, ok=bad is None, bad=bad))
+    # auto-reset into ANOTHER recorded episode (randomize_eps, freshly drawn initial state): the state returned after an episode end must be the
+    # drawn episode's initial state as a whole - in particular the schedule in force (timings_eps) is the one of the episode number in force
+    import copy
+
+    import rex.jax_utils as rjax
+    cfg2 = copy.deepcopy(cfg)
+    cfg2["nodes"][0]["cdist"] = [0, 1, 2]
+    cfg2["conns"][0]["cdist"] = [0, 1]
+    g_raw2, _ = compiled.generated_graphs(cfg2, job["seed"] + 3, 2 * (L + 6), 4)
+    nodes2 = gen.build_nodes(cfg2, log=False)
+    G2 = Graph(nodes=dict(nodes2), supervisor=nodes2["agent"], graphs_raw=g_raw2, progress_bar=False)
+    env2 = TableEnv(G2, params=None, only_init=False, starting_eps=0, randomize_eps=True, order=None)
+    env2 = rl.VecEnvWrapper(rl.LogWrapper(rl.AutoResetWrapper(env2, fixed_init=False)))
+    gs, _, _ = env2.reset(jax.random.split(jax.random.PRNGKey(job["seed"] + 11), 1))
+    z = jnp.zeros((1, 3 * L + 4))
+    te = z.astype(bool).at[0, 1::2].set(True)      # every second step ends an episode
+    gs = gs.replace_aux({"tab_r": z, "tab_te": te, "tab_tr": z.astype(bool)})
+    step2 = jax.jit(env2.step)
+    bad2, seen_eps = None, []
+    for k in range(3 * L):
+        gs, obs, rew, te_, tr_, info = step2(gs, jnp.array([[0.3]]))
+        e = int(onp.asarray(gs.eps)[0])
+        seen_eps.append(e)
+        want = jax.tree_util.tree_leaves(rjax.tree_take(G2.timings, e))
+        got = jax.tree_util.tree_leaves(jax.tree_util.tree_map(lambda x: x[0], gs.timings_eps))
+        if len(want) != len(got) or not all(onp.array_equal(onp.asarray(a), onp.asarray(b)) for a, b in zip(want, got)):
+            bad2 = dict(step=k, what="after an auto-reset the schedule in force (timings_eps) is the schedule of the episode in force", eps=e, episodes_so_far=seen_eps)
+            break
+    results.append(dict(hist=[dict(auto_reset_into_other_episode=True)], variant=dict(randomize_eps=True, fixed_init=False), ok=bad2 is None, bad=bad2,
+                        episodes=sorted(set(seen_eps))))
     return dict(results=results)
 
 
@@ -1038,7 +1118,7 @@ def c19(tier, seed):
         for rr in res["results"]:
             n += 1
             if rr["ok"]:
-                if any(x["te"] or x["tr"] for x in rr["hist"]):
+                if any(x.get("te") or x.get("tr") or x.get("auto_reset_into_other_episode") for x in rr["hist"]):
                     rep.nontrivial(json.dumps([rr["hist"], rr["variant"]]))
                 rep.sample(dict(history=rr["hist"], variant=rr["variant"], verdict="conforms"), limit=3)
                 continue
@@ -1052,7 +1132,9 @@ def c19(tier, seed):
                        "NormalizeVecReward(NormalizeVecObservation(VecEnv(Squash|Clip(Log(AutoReset(fixed|fresh)(Environment over a compiled graph)))))): after "
                        "every step the observation (= graph step), reward sign, flags, returned episode return/length, timestep, graph step, running moments "
                        "(as exact integer sums) and the supervisor output found in the graph buffer (= squashed/clipped action, inside the bounds) must equal "
-                       "the model. non-trivial = history with at least one episode end")
+                       "the model. Per job one more run over a graph of 4 different recorded episodes with randomize_eps and freshly drawn initial states: after every "
+                       "step (every second one ends an episode) the schedule in force is the schedule of the episode number in force (AutoResetSemantics: the "
+                       "state after an episode end is the reset state as a whole). non-trivial = history with at least one episode end")
     rep.assumptions += ["scale/unsquash being mutual inverses up to rounding and the numeric value of normalised observations are floating-point identities and are not decided here",
                         "gamma = 1, batch of one, integer rewards"]
     return rep.finish()
